@@ -36,6 +36,11 @@ P = {
          "The emptiness test is the GENERATED `&`/is_empty, and the proof uses C01/C05 exactness. Tie: S-tags stream (model vs _evaluate_python over the tag universe x requires_python x implementation grid).",
          TB_PROOF + "; Model/Tags.v is hand-written (string slicing / replace / lower / startswith) and tied by the S-tags stream",
          "machine-checked proof in Coq over a hand model on top of the regenerated algebra + correspondence", "5"),
+ "C16": ("proof", "C16_python (widening requires_python keeps every accepted python/ABI pair, from C08), C16_plat (a newer release of the same OS family and architecture accepts every tag, from the C09 "
+         "membership characterisations, for all versions), and for the model of EnvSpec.compare: reflexive, INCOMPATIBLE symmetric, never HIGHER both ways, HIGHER/LOWER_OR_EQUAL imply nested platform tag sets, total. "
+         "Ties: S-cmp (compare model vs EnvSpec.compare on 1500/20000 spec pairs), S-tags, S-plat (exhaustive grid).",
+         TB_PROOF + "; Model/Tags.v and Model/Platform.v are hand-written and tied by the S-cmp / S-tags / S-plat streams; nesting is stated for manylinux major 2, musllinux major 1, macOS (x86_64: 10.x with minor<=16 or >=11; arm64), Windows",
+         "machine-checked proof in Coq over hand models on top of the regenerated algebra + correspondence", "5"),
  "C19": ("proof", "C19_and/or/inv/dispatch for ALL strings over Model/Generic.v (hand model of generic.py, tied by the exhaustive S-generic stream over 8 operators x a "
          "literal pool closed under the relations the case table inspects); Empty/Any membership is the regenerated special.py.",
          "trusted: Coq kernel (closed under the global context); the hand model is tied to generic.py only by the exhaustive correspondence stream; translator for special.py",
@@ -51,7 +56,6 @@ ORACLE_ONLY = {
  "C11": "specifier view of python_version/python_full_version atoms and from_specifier round trip vs packaging over an interpreter grid",
  "C12": "only()/exclude()/without_extras(): leaked variables, implication, identity on environment grids",
  "C15": "normal-form checker on every result of parse/&/|/only/exclude",
- "C16": "widening requires_python / platform never loses wheels or tags; compare() reflexive, INCOMPATIBLE symmetric, nesting consistent",
  "C17": "parser acceptance vs packaging's SpecifierSet per ||-alternative; only InvalidSpecifier may be raised; from_specifierset never raises",
  "C18": "wheel tag sets vs packaging.utils.parse_wheel_filename; malformed names; platform aliases and Platform.parse(str(p)) == p",
 }
